@@ -70,6 +70,18 @@ def render(cfg, dev):
     return "\n".join(out) + "\n"
 
 
+def merge_files(case):
+    """(ipv6 text, raw text) for a merge case: IOS has a raw part only."""
+    pa = case["tgt"]["parts"]
+    raw = None
+    if pa["pre"] or pa["app"]:
+        raw = "ip access-list extended E0_raw\n" + "".join(" " + ace_text(a, False) + "\n" for a in pa["pre"])
+        if pa["app"]:
+            raw += "[APPEND]\n" + "".join(" " + ace_text(a, False) + "\n" for a in pa["app"])
+        raw += "interface Ethernet0\n ip access-group E0_raw in\n"
+    return None, raw
+
+
 # ------------------------------------------------------------------ cmdparse
 
 def _addr(tok):
